@@ -1,6 +1,7 @@
 SPECIFICATION SimSpec
 CONSTANTS
   WorkerCpus <- S1_Workers
+  WorkerGroup <- S1_Groups
   Menu <- S1_Menu
   Classes <- S1_Classes
   MaxLosses = 2
@@ -40,3 +41,5 @@ INVARIANTS
   C13_CompletedOnce
   C14_AbortAllOnExceed
   C14_ExceededStopped
+  C05_MnExclusive
+  C05_MnWorkersIdle
